@@ -219,6 +219,7 @@ func runC01(c *Ctx, r *Report) {
 	c01r7(c, r)
 	c01r8(c, r)
 	c01r9(c, r)
+	c02r12(c, r) // accent folding of the query in --no-extended mode
 	c13r3(c, r) // a leftover worker of a cancelled scan shares its slab with the next scan: wrong matches
 	c02r10(c, r) // the pattern side and the text side fold the same letters
 	c01r4(c, r)
